@@ -88,6 +88,19 @@ CLAIMED['C15'] = dict(
          'sources, not as arbitrary strings; inertness observed with sys.addaudithook (import/exec/compile/open/'
          'subprocess/socket events other than the evaluator\'s own any([...])/all([...])).')
 
+CLAIMED['C20'] = dict(
+    engine='Stats',
+    technique='TLA+ spec Stats.tla (series lengths, period gate, key appearance/vanishing/wrap, pid change) exhausted by '
+              'TLC + every transition replayed into the real statistics compilers with seeded concrete values + TLC '
+              'monitor (StatsMon) on recorded lengths and scaled values + long random streams at the real depth',
+    text='Histories are a state machine over series lengths: the model is exhausted for small depths/periods, each '
+         'transition is executed on the real HostStatisticsCompiler / ProcStatisticsCompiler, and TLC judges what '
+         'the real objects hold and return (bounded, aligned, gated, CPU range, finite non-negative rates, dropped '
+         'history on pid 0).',
+    design_ref='DESIGN.md 3 C20',
+    note='Trusted: sample generator (non-decreasing jiffies, process work <= cores x elapsed, non-wrapped counters '
+         'non-decreasing); core-count changes are outside the stated domain; numeric accuracy not addressed.')
+
 PENDING_REASON = 'check not built yet (work in progress; see DESIGN.md section 3)'
 
 
